@@ -26,7 +26,7 @@ from typing import Any, Dict, List, Optional, Tuple
 
 from asl.absint import UNKNOWN, STOP, AbsEval, Machine
 from asl.cfg import Node, cfg_of
-from asl.flow import find_path, pretty_path, reachable
+from asl.flow import find_path, node_defs, pretty_path, reachable
 from asl.loader import AnalysisError, norm, own_nodes
 from .common import make_resolver
 
@@ -208,6 +208,8 @@ class _UnwindOps:
             return len(self._get(env, args[0]))
         if func == "type" and args and isinstance(args[0], str):
             return ("type", args[0])
+        if func == "bool" and len(args) == 1 and not kwargs:
+            return self.truth(args[0], env) if not isinstance(args[0], bool) and args[0] is not None else bool(args[0])
         fv = env.get(func, None) if func.isidentifier() else None
         if isinstance(fv, str) and fv.startswith("CB"):
             env["@trace"] = env["@trace"] + ((fv, tuple(args)),)
@@ -516,9 +518,69 @@ def _callback_runner(ctx):
     return None
 
 
+def _callback_closure(ctx):
+    """Second accepted form: ``callback()`` registers a coroutine function defined inside it
+    (a closure over the callback and its arguments).  -> (nested unit, registering call node)"""
+    m = ctx.unit("contextlib.ExitStack.callback")
+    mcfg = cfg_of(m)
+    for r in mcfg.nodes:
+        if r.kind == "call" and not r.tag and isinstance(r.ast.func, ast.Attribute) \
+                and norm(r.ast.func.value) == f"self.{STACK_ATTR}" and len(r.ast.args) == 1 \
+                and isinstance(r.ast.args[0], ast.Name):
+            for t in m.module.units.values():
+                if t.parent is m and t.node.name == r.ast.args[0].id and t.kind == "coroutine":
+                    return t, r
+    return None
+
+
+def _r14_5_closure(ctx, u, reg) -> None:
+    from .common import inline_locals
+    from .lru import enumerate_paths
+    m = ctx.unit("contextlib.ExitStack.callback")
+    mcfg = cfg_of(m)
+    cbp = m.param_names()[1]
+    va = m.node.args.vararg.arg if m.node.args.vararg else None
+    kw = m.node.args.kwarg.arg if m.node.args.kwarg else None
+    regs = [n for n in mcfg.nodes if n.kind == "call" and not n.tag and isinstance(n.ast.func, ast.Attribute)
+            and norm(n.ast.func.value) == f"self.{STACK_ATTR}" and n.ast.args]
+    ctx.check(len(regs) == 1, "R14.5", m, "callback", "callback() registers one exit")
+    cfg = cfg_of(u)
+    own = set(u.param_names()) | {x.id for x in own_nodes(u.node) if isinstance(x, ast.Name) and isinstance(x.ctx, ast.Store)}
+    for path in enumerate_paths(cfg, cfg.entry, lambda n: n is cfg.exit):
+        nodes = [n for n, _l in path]
+        awaits = [n for n in nodes if n.kind == "await"]
+        ok = False
+        if len(awaits) == 1 and isinstance(awaits[0].info.get("value"), ast.Call):
+            call = awaits[0].info["value"]
+            f = call.func
+            if isinstance(f, ast.Name) and f.id not in own:
+                f = inline_locals(ctx, m, mcfg, reg, f)  # the closure variable as bound in callback()
+            wrapped = isinstance(f, ast.Call) and ctx.pkg.resolve_expr_global(m.module, f.func).qual.endswith("_core.awaitify") \
+                and len(f.args) == 1 and norm(f.args[0]) == cbp
+            ok = wrapped and len(call.args) == 1 and isinstance(call.args[0], ast.Starred) and norm(call.args[0].value) == va \
+                and va not in own and kw not in own \
+                and len(call.keywords) == 1 and call.keywords[0].arg is None and norm(call.keywords[0].value) == kw
+        ctx.check(bool(ok), "R14.5", u, awaits[0] if awaits else u.node.name,
+                  "the (awaitified) callback is awaited exactly once with *args and **kwargs unchanged")
+        rets = [n for n in nodes if n.kind == "return"]
+        val = rets[-1].info.get("value") if rets else None
+        ctx.check(isinstance(val, ast.Constant) and val.value is False, "R14.5", u, rets[-1] if rets else u.node.name,
+                  "a callback can never suppress: constant False is returned")
+    # the closure's free variables are not re-bound between their definition and the end of callback()
+    for name in (cbp, va, kw):
+        rebinds = [n for n in mcfg.nodes if n.kind == "store" and not n.tag and name in node_defs(n)]
+        ctx.check(not rebinds, "R14.5", m, rebinds[0] if rebinds else "callback",
+                  f"`{name}` captured by the registered closure is not re-bound in callback()")
+
+
 def r14_5(ctx) -> None:
     _derive_stack_attr(ctx)
     u = _callback_runner(ctx)
+    if u is None:
+        closure = _callback_closure(ctx)
+        if closure is not None:
+            _r14_5_closure(ctx, *closure)
+            return
     if u is None:
         ctx.fail("R14.5", ctx.unit("contextlib.ExitStack.callback"), "callback",
                  "callback() does not register its callback through a library coroutine that ignores the callback's result "
